@@ -426,6 +426,28 @@ fn limits_layer(rep: &mut Report, _args: &Args, rng: &mut Rng) {
           fr.try_read_msg(&mut b).map(|o| o.is_some()).map_err(|e| e.to_string())
         })));
         // engine in data phase (only where the READY command itself fits under the limit)
+        // engine after a ZMTP/2.0 handshake (no READY exchange: the framer of the greeting phase stays in charge), as
+        // listener and as connector
+        for as_server in [true, false] {
+          judge(rep, if as_server { "engine_v2_listener" } else { "engine_v2_connector" }, catch_unwind(AssertUnwindSafe(|| {
+            let cfg = EngineCfg::new("PULL").max_msg_size(limit);
+            let mut side = Side::new(cfg.engine(as_server));
+            let o = side.eng.start();
+            let _ = side.absorb(o);
+            let _ = side.feed(&refzmtp::greeting_v2(refzmtp::V2_PUSH, b""));
+            if !side.in_data() {
+              return Err(format!("v2 handshake did not reach the data phase: {:?}", side.errors));
+            }
+            let mut e2 = vec![];
+            refzmtp::encode_frame(&Frame::data(&body, false), &mut e2);
+            let _ = side.feed(&e2);
+            if side.closed() {
+              Err(side.errors.join(";"))
+            } else {
+              Ok(side.delivered.len() == 1)
+            }
+          })));
+        }
         if limit >= 64 {
         judge(rep, "engine", catch_unwind(AssertUnwindSafe(|| {
           let cfg = EngineCfg::new("PULL").max_msg_size(limit);
@@ -445,6 +467,39 @@ fn limits_layer(rep: &mut Report, _args: &Args, rng: &mut Rng) {
             Ok(side.delivered.len() == 1)
           }
         })));
+        }
+      }
+    }
+  }
+  // Before the handshake is over: a peer that has sent its greeting but no READY yet announces a frame larger than
+  // MAXMSGSIZE and starts feeding its body. The connection must be refused at the header - not buffer the body.
+  for limit in [64i64, 1000, 65536] {
+    for (mechname, greeting) in [("NULL", refzmtp::greeting_raw(3, 0, b"NULL", false)), ("NULL-3.1", refzmtp::greeting_raw(3, 1, b"NULL", false))] {
+      for command in [false, true] {
+        let cfg = EngineCfg::new("PULL").max_msg_size(limit);
+        let mut side = Side::new(cfg.engine(true));
+        let o = side.eng.start();
+        let _ = side.absorb(o);
+        let _ = side.feed(&greeting);
+        let declared = (limit as u64) + 1 + rng.below(100_000);
+        let mut hdr = vec![if command { 0x06u8 } else { 0x02u8 }];
+        hdr.extend_from_slice(&declared.to_be_bytes());
+        let _ = side.feed(&hdr);
+        let mut fed = 0u64;
+        let mut max_buf = 0usize;
+        while !side.closed() && fed < declared.min(200_000) {
+          let chunk = vec![0x41u8; 4096.min((declared - fed) as usize)];
+          let _ = side.feed(&chunk);
+          fed += chunk.len() as u64;
+          max_buf = max_buf.max(side.eng.buffer_len());
+        }
+        rep.case(&("pre_ready_oversize", limit, mechname, command), true);
+        if !side.closed() || fed > 8192 {
+          rep.violation(
+            format!("oversize_frame_before_ready_not_refused_at_header|{}", if command { "command" } else { "data" }),
+            format!("MAXMSGSIZE={}: a {} frame announcing {} bytes sent after the greeting and before READY was not refused at its header: {} body bytes were taken (buffer peak {} bytes), closed={}", limit, if command { "COMMAND" } else { "data" }, declared, fed, max_buf, side.closed()),
+            json!({"limit": limit, "declared": declared, "fed": fed, "closed": side.closed()}),
+          );
         }
       }
     }
